@@ -8,7 +8,7 @@
 // EVERY sequence up to VERIF_BX_DEPTH is run, one input at a time, and every frame each live remote received is checked.
 use super::*;
 use crate::agent::task::tests::Instructions as Instr;
-use futures::FutureExt;
+
 
 #[derive(Clone, Copy, Debug)]
 enum Op {
@@ -202,7 +202,6 @@ fn agent_write_task_contract() {
             }
         }
     }
-    let _ = (|| async {}).now_or_never();
     println!("BX-SAMPLE depth={depth} inputs {{attach remote 0/1, link/unlink remote x lane (value, supply), lane event, remote silently gone}} then stop; e.g. [Attach(0), Link(0,value), Attach(1), Link(1,supply), Gone(0)] then stop");
     match failure {
         None => println!("BX-OBL agent_write_task::frame_language_per_link_and_every_open_link_closed_on_stop ok evaluations={evaluations} distinct={nontrivial}"),
